@@ -121,7 +121,8 @@ CHECKS.update({
             "seekable) around an independent list renderer fed from generator ground truth",
             "Exploration: stdout of l/lv/v/vv x quiet levels x wildcard lists must equal the reference rendering byte for byte; 'now' and "
             "member time stamps are placed on both sides of the six-month boundary, at 0, 2^31 and 2^32-1; sizes up to 2^32-1; every OS "
-            "byte; Unix and OS-9 permission words; header levels 0-3; duplicate member names with name arguments; the one-argument form.",
+            "byte; Unix and OS-9 permission words; header levels 0-3; duplicate member names with name arguments; the one-argument form. "
+            "The workload is run a second time in the uninstrumented build.",
             "Renderer written from the column specification (DESIGN appendix F); ratio accepted in single or double precision; "
             "printable names only; totals below 2^32; fixed-offset zones (no DST rules).",
             "DESIGN.md 7 C19, appendix F"),
@@ -137,7 +138,8 @@ CHECKS.update({
             "'directory keeps its recorded mtime although children were written later' an ordering constraint, uid 1000 makes "
             "'metadata only after contents' a permission constraint. One run in six has one system call of the extraction fail once "
             "(F-SYSCALL): the object it was made for is excused, every other entry must still match exactly. Initial trees hold files, "
-            "directories, symbolic links (to directories, to nothing) and directories without write permission at the places the archive writes to.",
+            "directories, symbolic links (to directories, to nothing) and directories without write permission at the places the archive writes to. "
+            "The workload is run a second time in the uninstrumented build.",
             "SimFS semantics are validated against the kernel (check selftest simfs); ownership, set-id bits, modes without recorded "
             "permissions and mtimes of directories holding unsafe symlinks are not compared; names are separator-free printable with a lower-case letter.",
             "DESIGN.md 7 C06, appendix G"),
